@@ -9,8 +9,8 @@ PARSE_OPS = ("cls", "mp", "eap", "rtp", "it", "crc")
 CORPUS_PROPS = ["C02", "C04", "C06", "C08", "C09", "C11", "C12"]
 
 ENV_A = {}
-ENV_B = {"LWV_TRAIL": "16", "LWV_PREFILL": "0", "LWV_FILL": "205", "LWV_PRECALL": "1"}
-ENV_C = {"LWV_TRAIL": "3", "LWV_PREFILL": "255", "LWV_FILL": "0"}
+ENV_B = {"LWV_TRAIL": "16", "LWV_PREFILL": "0", "LWV_FILL": "205", "LWV_PRECALL": "1", "LWV_MISALIGN": "3"}
+ENV_C = {"LWV_TRAIL": "3", "LWV_PREFILL": "255", "LWV_FILL": "0", "LWV_MISALIGN": "1"}
 
 
 def runs_for(tier):
@@ -34,7 +34,7 @@ def check(ctx):
     cap = 40000 if thorough else 2500
     ctx.rule = ("the operation lines of the C02/C04/C06/C08/C09/C11/C12 checks that call a parsing entry point (classification, the nine management parsers, data, EAPOL, radiotap, "
                 "tag iteration, CRC/FCS), up to %d per suite sampled with the seed; each line evaluated by the model and by the -O1 ASan build in environment A (exact-size input block, output objects pre-filled 0xA5, "
-                "allocator default), then re-evaluated in environment B (16 bytes 0xFF after the stated length, outputs pre-filled 0x00, every library allocation pre-filled 0xCD, an unrelated create/dump/parse/free "
+                "allocator default), then re-evaluated in environment B (input placed 3 octets into its block, 16 bytes 0xFF after the stated length, outputs pre-filled 0x00, every library allocation pre-filled 0xCD, an unrelated create/dump/parse/free "
                 "call sequence before each op)%s in three builds (-O1 ASan+UBSan, -O0, -O2 -fstack-protector-strong -D_FORTIFY_SOURCE=2 -fstack-clash-protection); "
                 "the printed field-wise observation must be identical in all of them; every op aborts if its input block (stated or trailing bytes) changed; cls/mp/eap scrub and release the input before observing; "
                 "distinct = (op, output)" % (cap, " and C (3 trailing bytes, pre-fill 0xFF, allocations pre-filled 0x00)" if thorough else ""))
